@@ -55,6 +55,22 @@ theorem search_eligible (T : Tuning S) (db : Db) (q : Bytes) (o : Opts S) {r : L
       intro x hx
       cases hx
 
+/-! ### the CLI's recovery answer (cli/search.go: `database.FilterResults(recoveredResults, searchOptions)`) -/
+
+/-- database.FilterResults: keep the results whose command passes the gate (results are (document, score)
+    pairs in the model; a result that is no document of the database is dropped, as `r.Command != nil`) -/
+def filterResults {S : Type} (ri : RuneInfo) (host : Bytes) (o : FilterOpts) (db : Db) (rs : List (Nat × S)) :
+    List (Nat × S) :=
+  rs.filter (fun x => match db[x.1]? with | some c => passes ri host o c | none => false)
+
+theorem filterResults_mem {S : Type} (ri : RuneInfo) (host : Bytes) (o : FilterOpts) (db : Db) (rs : List (Nat × S)) :
+    ∀ x ∈ filterResults ri host o db rs, ∃ c, db[x.1]? = some c ∧ passes ri host o c = true := by
+  intro x hx
+  simp only [filterResults, List.mem_filter] at hx
+  cases hc : db[x.1]? with
+  | none => rw [hc] at hx; simp at hx
+  | some c => rw [hc] at hx; exact ⟨c, rfl, hx.2⟩
+
 /-! ### a local transliteration of SearchWithPipelineOptions' loop (see Props/C04.lean `legacy_pipeline`) -/
 
 /-- the legacy gate: `if options.PipelineOnly && !isPipelineCommand(cmd) { continue }` -/
